@@ -8,6 +8,9 @@
 //! model's response by ./check); the oracle verdict (`-`, `ok`, or `FAIL <reason>`) is the
 //! property's own oracle evaluated on the implementation's output, independent of the model.
 mod util;
+#[macro_use]
+mod polyio;
+mod polyops;
 
 mod c11;
 
@@ -20,6 +23,7 @@ type RunFn = fn(&str) -> Obs;
 fn table(prop: &str) -> Option<(GenFn, RunFn)> {
     match prop {
         "C11" => Some((c11::generate, c11::run)),
+        "POLY" => Some((polyops::generate, polyops::run)),
         _ => None,
     }
 }
